@@ -293,6 +293,18 @@ func check(w int, v *vec) []mism {
 				add("roundtrip/oneshot", fmt.Sprintf("Decode(Encode(%q)) = Decode(%q) = %q err=%v panic=%q, want the original", src, r.Out, b.Out, b.Err, b.Panic), nil)
 			}
 		}
+		// the same name through the real call sites: imapwire.Encoder.Mailbox writes it, the peer's string reader
+		// sees the modified UTF-7 text, the peer's ExpectMailbox hands back the name (INBOX in any case is INBOX)
+		if !strings.EqualFold(src, "INBOX") {
+			t := callOnce(verifutf7.WireText, src)
+			if t.Panic != "" || t.Err != nil || t.Out != string(exp) {
+				add("wire/text", fmt.Sprintf("Encoder.Mailbox(%q) carries %q err=%v panic=%q, spec predicts the text %q", src, t.Out, t.Err, t.Panic, exp), nil)
+			}
+			b := callOnce(verifutf7.WireRoundTrip, src)
+			if b.Panic != "" || b.Err != nil || b.Out != src {
+				add("wire/roundtrip", fmt.Sprintf("ExpectMailbox(Encoder.Mailbox(%q)) = %q err=%v panic=%q, want the original", src, b.Out, b.Err, b.Panic), nil)
+			}
+		}
 		for i := range schedules {
 			sc := schedules[i]
 			enter(w, func() string { return fmt.Sprintf("encoder.Transform on %q, %v", src, sc) })
